@@ -25,6 +25,73 @@ RS_VER_DID = (FN, "    def _did_upload(self, res, size):\n        self._most_rec
               "    def _did_upload(self, res, size):\n        self._most_recent_size = size\n        self._node._forget_read_servermap()\n"
               "        return res\n\n    def update(self, data, offset):\n")
 
+
+# ---- C12-I done faithfully: the test-and-write vector assembly of both write proxies extracted into module helpers ------
+_TW_PACK = 'def pack_offsets(verification_key_length, signature_length,\n'
+_TW_HELPERS = ('NEW_SHARE_TESTV = (0, 1, b"")\n\ndef checkstring_to_testvs(checkstring):\n    if checkstring == b"":\n'
+               '        return []\n    return [(0, len(checkstring), checkstring)]\n\n'
+               'def make_tw_vectors(shnum, datavs, testvs=None):\n    if not testvs:\n        testvs = [NEW_SHARE_TESTV]\n'
+               '%s\n' + _TW_PACK)
+_TW_RETURN = '    return {shnum: (testvs, datavs, None)}\n'
+_TW_SDMF_CALL = '        tw_vectors = make_tw_vectors(self.shnum, datavs, self._testvs)\n'
+_TW_MDMF_CALL = '        tw_vectors = make_tw_vectors(self.shnum, datavs, self._testvs)\n'
+_TW_MDMF_SEND = '        d = self._storage_server.slot_testv_and_readv_and_writev(\n'
+
+
+def _tw_refactor(ret=_TW_RETURN, sdmf=_TW_SDMF_CALL, mdmf=_TW_MDMF_CALL):
+    """(old, new) of the first edit and the further edits of the faithful helper refactor, with three places to vary."""
+    return (_TW_PACK, _TW_HELPERS % ret.rstrip("\n")), [
+        (LAY,
+         '        if checkstring == b"":\n            # An empty checkstring means "the share must still be empty".\n            # A zero-length test vector would match any contents; leave\n            # _testvs empty so finish_publishing uses (0, 1, b"") instead,\n            # as MDMFSlotWriteProxy.set_checkstring does.\n            self._testvs = []\n        else:\n            self._testvs = [(0, len(checkstring), checkstring)]\n',
+         '        self._testvs = checkstring_to_testvs(checkstring)\n'),
+        (LAY,
+         '        if not self._testvs:\n            # Our caller has not provided us with another checkstring\n            # yet, so we assume that we are writing a new share, and set\n            # a test vector that will only allow a new share to be written.\n            self._testvs = []\n            self._testvs.append(tuple([0, 1, b""]))\n\n        tw_vectors = {}\n        tw_vectors[self.shnum] = (self._testvs, datavs, None)\n',
+         sdmf),
+        (LAY,
+         '        if checkstring == b"":\n            # We special-case this, since len("") = 0, but we need\n            # length of 1 for the case of an empty share to work on the\n            # storage server, which is what a checkstring that is the\n            # empty string means.\n            self._testvs = []\n        else:\n            self._testvs = []\n            self._testvs.append((0, len(checkstring), checkstring))\n',
+         '        self._testvs = checkstring_to_testvs(checkstring)\n'),
+        (LAY,
+         '        tw_vectors = {}\n        if not self._testvs:\n            # Make sure we will only successfully write if the share didn\'t\n            # previously exist.\n            self._testvs = []\n            self._testvs.append(tuple([0, 1, b""]))\n',
+         ''),
+        (LAY,
+         '        tw_vectors[self.shnum] = (self._testvs, datavs, None)\n' + _TW_MDMF_SEND,
+         mdmf + _TW_MDMF_SEND),
+    ]
+
+
+def _tw_variant(mid, expect, **kw):
+    (old, new), edits = _tw_refactor(**kw)
+    return M(mid, LAY, old, new, expect, edits=edits)
+
+
+
+# ---- C13-I done faithfully: both _do_serialized copies hoisted into a mixin and rewritten in inlineCallbacks style -------
+_DS_OLD = ("    def _do_serialized(self, cb, *args, **kwargs):\n        # note: to avoid deadlock, this callable is *not* allowed to invoke\n"
+           "        # other serialized methods within this (or any other)\n        # MutableFileNode. The callable should be a bound method of this same\n"
+           "        # MFN instance.\n        d = defer.Deferred()\n        self._serializer.addCallback(lambda ignore: cb(*args, **kwargs))\n"
+           "        # we need to put off d.callback until this Deferred is finished being\n        # processed. Otherwise the caller's subsequent activities (like,\n"
+           "        # doing other things with this node) can cause reentrancy problems in\n        # the Deferred code itself\n"
+           "        self._serializer.addBoth(lambda res: eventually(d.callback, res))\n        # add a log.err just in case something really weird happens, because\n"
+           "        # self._serializer stays around forever, therefore we won't see the\n        # usual Unhandled Error in Deferred that would give us a hint.\n"
+           "        self._serializer.addErrback(log.err)\n        return d\n\n\n")
+_DS_ANCHOR = '# use nodemaker.create_mutable_file() to make one of these\n'
+_DS_DECO = '    @defer.inlineCallbacks\n'
+_DS_RUN = ('        try:\n            res = yield cb(*args, **kwargs)\n        finally:\n'
+           '            eventually(finished.callback, None)\n        return res\n')
+_DS_MIXIN = ('\nclass _SerializedOperations:\n%s    def _do_serialized(self, cb, *args, **kwargs):\n'
+             '        # take our place at the tail first, then wait for the operation ahead of us\n'
+             '        ahead = self._serializer\n        self._serializer = finished = defer.Deferred()\n        yield ahead\n%s\n\n')
+
+
+def _ds_variant(mid, expect, deco=_DS_DECO, run=_DS_RUN):
+    return M(mid, FN, _DS_ANCHOR, (_DS_MIXIN % (deco, run)) + _DS_ANCHOR, expect, edits=[
+        (FN, 'class MutableFileNode:\n', 'class MutableFileNode(_SerializedOperations):\n'),
+        (FN, _DS_OLD + "    def _upload(self, new_contents, servermap):\n", "    def _upload(self, new_contents, servermap):\n"),
+        (FN, 'class MutableFileVersion:\n', 'class MutableFileVersion(_SerializedOperations):\n'),
+        (FN, _DS_OLD + "    def _upload(self, new_contents):\n", "    def _upload(self, new_contents):\n"),
+    ])
+
+
 MUTANTS = [
     # ---- C09.1 formulas ----------------------------------------------------
     M("retrieve-numseg-floor", RET,
@@ -550,7 +617,39 @@ MUTANTS = [
     M("benign-mdmf-write-vectors-literal", LAY,
       "        tw_vectors[self.shnum] = (self._testvs, datavs, None)\n        d = self._storage_server",
       "        tw_vectors = {self.shnum: (self._testvs, datavs, None)}\n        d = self._storage_server", None),
+    # the same assembly behind module helpers (seeded C12-I, repaired): the helper is followed with its arguments bound
+    _tw_variant("benign-refactor-tw-vector-helpers-faithful", None),
+    _tw_variant("benign-refactor-tw-vector-helper-statement-form", None,
+                ret='    tw = {}\n    tw[shnum] = (testvs, datavs, None)\n    return tw\n'),
+    _tw_variant("benign-refactor-tw-vector-helper-keyword-call", None,
+                mdmf='        tw_vectors = make_tw_vectors(datavs=datavs, testvs=self._testvs, shnum=self.shnum)\n'),
+    _tw_variant("refactor-tw-vector-helper-drops-data-vectors", "C09.17",
+                ret='    return {shnum: (testvs, [], None)}\n'),
+    _tw_variant("refactor-tw-vector-helper-empty-without-testvs", "C09.17",
+                ret='    tw = {}\n    if datavs:\n        tw[shnum] = (testvs, datavs[:1], None)\n    return tw\n'),
+    _tw_variant("refactor-tw-vector-helper-test-vectors-as-data", "C09.17",
+                ret='    return {shnum: (datavs, testvs, None)}\n'),
+    _tw_variant("refactor-tw-vector-mdmf-call-other-share-key", "C09.17",
+                mdmf='        tw_vectors = make_tw_vectors(self._seqnum, datavs, self._testvs)\n'),
+    _tw_variant("refactor-tw-vector-sdmf-call-sends-test-vectors-only", "C09.17",
+                sdmf='        tw_vectors = make_tw_vectors(self.shnum, [], self._testvs)\n'),
 
+    # _do_serialized as an inlineCallbacks generator in a shared mixin (seeded C13-I, repaired): the caller always gets a
+    # Deferred; what remains is that the operation handed in is waited for
+    _ds_variant("benign-refactor-do-serialized-inlinecallbacks-faithful", None),
+    _ds_variant("benign-refactor-do-serialized-yield-a-local", None,
+                run='        try:\n            d = cb(*args, **kwargs)\n            res = yield d\n        finally:\n'
+                    '            eventually(finished.callback, None)\n        return res\n'),
+    _ds_variant("benign-refactor-do-serialized-return-the-yield", None,
+                run='        try:\n            return (yield cb(*args, **kwargs))\n        finally:\n'
+                    '            eventually(finished.callback, None)\n'),
+    _ds_variant("refactor-do-serialized-operation-not-yielded", "C09.15",
+                run='        try:\n            res = cb(*args, **kwargs)\n        finally:\n'
+                    '            eventually(finished.callback, None)\n        return res\n'),
+    _ds_variant("refactor-do-serialized-operation-result-dropped", "C09.15",
+                run='        try:\n            cb(*args, **kwargs)\n            res = yield finished\n        finally:\n'
+                    '            eventually(finished.callback, None)\n        return res\n'),
+    _ds_variant("refactor-do-serialized-decorator-lost", "C09.15", deco=''),
     M("modify-no-change-test-inverted", FN,
       "            if new_contents is None or new_contents == old_contents:\n",
       "            if not (new_contents is None or new_contents == old_contents):\n", "C09.15"),
